@@ -26,13 +26,22 @@ from scratch import Inconclusive
 from startup_guard import Walker as _W
 
 
-def load(log_path):
+FUNCS = {
+    # function -> name of the parameter that must be passed as the transaction count / index
+    "finalise_block": "block_tx_count",
+    "add_tx_to_block": "tx_idx",
+}
+
+
+def load(log_path, fname="finalise_block"):
     text = open(mir.dump(log_path)).read()
-    m = re.search(r"^fn engine::engine::<impl at [^>]*>::finalise_block\((.*?)\) -> (.*?) \{\n(.*?)^\}", text, re.S | re.M)
+    m = re.search(r"^fn engine::engine::<impl at [^>]*>::" + fname + r"\((.*?)\) -> (.*?) \{\n(.*?)^\}", text, re.S | re.M)
     if not m:
-        raise Inconclusive("finalise_block not found in the MIR dump")
-    if not re.match(r"_1: &BRC20ProgEngine, _2: u64, _3: u64, _4: .*FixedBytes<32>, _5: u64$", m.group(1).strip()):
-        raise Inconclusive("finalise_block: signature changed: " + m.group(1)[:160])
+        raise Inconclusive(fname + " not found in the MIR dump")
+    params = dict(re.findall(r"^    debug ([a-z_0-9]+) => (_\d+);", m.group(3), re.M))
+    need = {"self", "timestamp", "block_number", "block_hash", FUNCS[fname]}
+    if not need <= set(params):
+        raise Inconclusive(fname + ": parameters changed: " + str(sorted(params)))
     blocks, cur = {}, None
     for line in m.group(3).splitlines():
         s = line.strip()
@@ -44,12 +53,12 @@ def load(log_path):
             cur = None
         elif cur and s and not s.startswith(("scope", "debug", "let ", "//")):
             blocks[cur].append(s)
-    return blocks
+    return blocks, {loc: ("p", name) for name, loc in params.items() if name in need}
 
 
 class Walker:
-    def __init__(self, blocks):
-        self.blocks, self.paths, self.decls, self.n = blocks, [], [], 0
+    def __init__(self, blocks, params):
+        self.blocks, self.paths, self.decls, self.n, self.params = blocks, [], [], 0, params
 
     def fresh(self, hint):
         self.n += 1
@@ -58,7 +67,7 @@ class Walker:
         return name
 
     def walk(self):
-        self.go("bb0", {"_2": ("p", "timestamp"), "_3": ("p", "block_number"), "_4": ("p", "block_hash"), "_5": ("p", "block_tx_count"), "_1": ("p", "self")}, [], [], 0)
+        self.go("bb0", dict(self.params), [], [], 0)
         return self.paths
 
     def val(self, env, o):
@@ -66,8 +75,8 @@ class Walker:
         return env.get(m.group(1), ("opaque",)) if m else ("opaque",)
 
     def go(self, cur, env, conds, events, depth):
-        if depth > 200:
-            raise Inconclusive("finalise_block: a loop or an overlong path at " + cur)
+        if depth > 300:
+            raise Inconclusive("a loop or an overlong path at " + cur)
         env, events = dict(env), list(events)
         for line in self.blocks[cur]:
             if line.startswith("return"):
@@ -87,6 +96,9 @@ class Walker:
                 live = [(k, bb) for k, bb in arms if not self.blocks.get(bb, ["unreachable"])[0].startswith("unreachable")]
                 if v[0] == "call":  # a Boolean computed by an uninterpreted call: free
                     v = ("bool", self.fresh("b_" + v[1]))
+                    env[m.group(1)] = v
+                elif v[0] == "opaque" and len(live) <= 2 and all(k in ("0", "1", "otherwise") for k, _ in live):
+                    v = ("bool", self.fresh("b_opaque"))  # a comparison the walker does not interpret: free
                     env[m.group(1)] = v
                 if v[0] == "bool":
                     for k, bb in live:
@@ -165,8 +177,9 @@ class Walker:
         raise Inconclusive("basic block without terminator: " + cur)
 
 
-def run(o, tier, seed, log_path):
-    w = Walker(load(log_path))
+def run(o, tier, seed, log_path, fname="finalise_block"):
+    blocks, params = load(log_path, fname)
+    w = Walker(blocks, params)
     paths = w.walk()
     rets = [p for p in paths if p["end"] == "return"]
 
@@ -175,7 +188,7 @@ def run(o, tier, seed, log_path):
             return False
         a = e["args"]
         hash_ok = a[2] == ("p", "block_hash") or a[2] == ("gen_hash", ("p", "block_number"))
-        return a[1] == ("p", "block_tx_count") and hash_ok and a[3] == ("p", "block_number") and a[4] == ("p", "timestamp") and e.get("ok")
+        return a[1] == ("p", FUNCS[fname]) and hash_ok and a[3] == ("p", "block_number") and a[4] == ("p", "timestamp") and e.get("ok")
 
     def is_write(e):
         return re.search(r"SharedData::write_fn(_unchecked)?$", e.get("name", "")) is not None
@@ -204,7 +217,7 @@ def run(o, tier, seed, log_path):
                     swallowed.append("(and " + " ".join(p["cond"] + [f"(not {e['ok']})"]) + ")")
     writers = [p for p in rets if any(is_write(e) for e in p["events"])]
     if not writers:
-        raise Inconclusive("finalise_block: no path reaches a write_fn (the extractor no longer recognises the write)")
+        raise Inconclusive(fname + ": no path reaches a write_fn (the extractor no longer recognises the write)")
     q = [
         ("the enumerated paths are exhaustive|unsat", ["(not (or false " + " ".join("(and true " + " ".join(p["cond"]) + ")" for p in paths) + "))"]),
         ("no write lock is taken unless validate_next_tx(count, hash, number, timestamp) of this very call returned Ok before|unsat", ["(or false " + " ".join(bad) + ")"]),
@@ -213,11 +226,17 @@ def run(o, tier, seed, log_path):
         ("twin: a path that writes is feasible|sat", ["(or false " + " ".join("(and true " + " ".join(p["cond"]) + ")" for p in writers) + ")"]),
     ]
     r = smt_common.decide("\n".join(w.decls), q, log_path, primary="z3", second="cvc5")
-    r["functions"] = ["engine::engine::BRC20ProgEngine::finalise_block (all paths of the function itself; the write closure and callee bodies not entered)"]
+    r["functions"] = ["engine::engine::BRC20ProgEngine::" + fname + " (all paths of the function itself; the write closure and callee bodies not entered)"]
     r["encoding"] = {"paths": [{"end": p["end"], "conditions": len(p["cond"]), "events": [e["name"] for e in p["events"]]} for p in paths], "free_booleans": len(w.decls)}
     if r["verdict"] == "fail":
-        r["failed_checks"] = [dict(function="BRC20ProgEngine::finalise_block", description=nm.split("|")[0], file="src/engine/engine.rs") for nm in r["counterexamples"]]
+        r["failed_checks"] = [dict(function="BRC20ProgEngine::" + fname, description=nm.split("|")[0], file="src/engine/engine.rs") for nm in r["counterexamples"]]
         r["witness_path"] = [{"events": [e["name"] for e in p["events"]]} for p in witness[:1]]
+    return r
+
+
+def run_add_tx(o, tier, seed, log_path):
+    r = run(o, tier, seed, log_path, fname="add_tx_to_block")
+    r["which"] = "E9"
     return r
 
 
@@ -245,10 +264,65 @@ mod verif_e8_witness {
 '''
 
 
+WITNESS_E9 = r'''
+#[cfg(test)]
+mod verif_e9_witness {
+    use super::*;
+    use revm::primitives::TxKind;
+    use tempfile::TempDir;
+    use crate::global::INDEXER_ADDRESS;
+    /// a transaction submitted for a block whose hash already belongs to an earlier block must be
+    /// refused and must not open a block (the next finalise with count 0 still goes through)
+    #[test]
+    fn verif_e9_rejected_add_tx_changes_nothing() {
+        let temp_dir = TempDir::new().unwrap();
+        let db = Brc20ProgDatabase::new(temp_dir.path()).unwrap();
+        let engine = BRC20ProgEngine::new(db);
+        let h = B256::from_slice([1; 32].as_ref());
+        engine.finalise_block(1622547800, 0, h, 0).unwrap();
+        let next = engine.get_next_block_height().unwrap();
+        let skipped = engine.add_tx_to_block(
+            1622547900,
+            &TxInfo::from_inscription(*INDEXER_ADDRESS, TxKind::Create, vec![].into()),
+            5,
+            next,
+            B256::from_slice([3; 32].as_ref()),
+            "verif_inscription_id_5".to_string(),
+            1000,
+            [0u8; 32].into(),
+        );
+        assert!(skipped.is_err(), "a transaction with index 5 was accepted into an empty block");
+        assert!(engine.get_transaction_receipt_by_inscription_id("verif_inscription_id_5".to_string()).unwrap().is_none(), "a refused transaction left a receipt behind");
+        let r = engine.add_tx_to_block(
+            1622547900,
+            &TxInfo::from_inscription(*INDEXER_ADDRESS, TxKind::Create, vec![].into()),
+            0,
+            next,
+            h,
+            "verif_inscription_id".to_string(),
+            1000,
+            [0u8; 32].into(),
+        );
+        assert!(r.is_err(), "a transaction for a block under an existing hash was accepted");
+        assert!(engine.get_transaction_receipt_by_inscription_id("verif_inscription_id".to_string()).unwrap().is_none(), "a refused transaction left a receipt behind");
+        engine.finalise_block(1622547900, next, B256::from_slice([2; 32].as_ref()), 0).unwrap();
+    }
+}
+'''
+
+
 def replay(result, log_path=None):
     import native
     out_dir = os.path.join(os.path.dirname(HERE), "evidence", "replay")
     os.makedirs(out_dir, exist_ok=True)
+    if result.get("which") == "E9":
+        p = os.path.join(out_dir, "C05_E9.rs")
+        open(p, "w").write("// " + json.dumps(result.get("failed_checks")) + "\n" + WITNESS_E9)
+        st, out = native.run(p, "src/engine/engine.rs", "verif_e9_rejected_add_tx_changes_nothing")
+        if log_path:
+            with open(log_path, "a") as f:
+                f.write(f"native replay E9: {st}\n{out[-1500:]}\n")
+        return {"reproduced": st == "fail", "note": f"native test verif_e9_rejected_add_tx_changes_nothing (real engine, real RocksDB, dev profile) {st}: " + " ".join(out[-400:].split()), "path": p}
     p = os.path.join(out_dir, "C05_E8.rs")
     open(p, "w").write("// " + json.dumps(result.get("failed_checks")) + "\n" + WITNESS)
     st, out = native.run(p, "src/engine/engine.rs", "verif_e8_rejected_finalise_changes_nothing")
@@ -259,7 +333,8 @@ def replay(result, log_path=None):
 
 
 if __name__ == "__main__":
-    r = run(None, "quick", 0, None)
-    print(r["verdict"], r["detail"], r["solver_s"], r["queries"])
-    for p in r["encoding"]["paths"]:
-        print("   ", p["end"], p["conditions"], p["events"])
+    for fn in FUNCS:
+        r = run(None, "quick", 0, None, fname=fn)
+        print(fn, r["verdict"], r["detail"], r["solver_s"], r["queries"])
+        for p in r["encoding"]["paths"]:
+            print("   ", p["end"], p["conditions"], p["events"])
